@@ -810,22 +810,37 @@ def check_container_validators(ctx):
                     if kind == "param" and payload == vparam:
                         # raw value: only when no item/key/value field is configured -- the return must be
                         # unreachable once the edges that establish "untyped" are cut
-                        def untyped_edge(a, b, lbl):
-                            e = a.ast
-                            if a.kind != "test":
-                                return False
-                            if isinstance(e, ast.Attribute) and e.attr in ("field", "_use_proxy", "key_field", "value_field") and lbl is False:
+                        # (the function specialised for "a typed item field is configured": flags and early exits follow)
+                        from engine.specialize import Spec
+
+                        def is_item_field(e, f=f, depth=0):
+                            if isinstance(e, ast.Attribute) and e.attr in ("field", "_use_proxy", "key_field", "value_field") and isinstance(e.value, ast.Name) \
+                                    and e.value.id == f.self_name:
                                 return True
-                            if isinstance(e, ast.Call) and ast.unparse(e.func) == "isinstance" and "AnyField" in ast.unparse(e.args[1]) and lbl is True:
-                                return True
-                            if isinstance(e, ast.Compare) and isinstance(e.ops[0], ast.Is) and "field" in ast.unparse(e.left) and lbl is True:
-                                return True
-                            if isinstance(e, ast.Compare) and isinstance(e.ops[0], ast.IsNot) and "field" in ast.unparse(e.left) and lbl is False:
-                                return True
+                            if isinstance(e, ast.Name) and depth < 3:
+                                srcs_ = []
+                                for k_, pl_ in value_sources(f, e, None):
+                                    if k_ == "unpack" and isinstance(pl_[0], (ast.Tuple, ast.List)) and pl_[1] is not None and pl_[1] < len(pl_[0].elts):
+                                        srcs_.append(pl_[0].elts[pl_[1]])
+                                    elif k_ == "expr" and isinstance(pl_, ast.AST):
+                                        srcs_.append(pl_)
+                                    else:
+                                        return False
+                                return bool(srcs_) and all(is_item_field(x_, f, depth + 1) for x_ in srcs_)
                             return False
-                        gg = an.cfg(f)
-                        p = gg.path(gg.entry, lambda n, r=r: n is r, may_raise=lambda n: an.node_may_raise(f, n),
-                                    edge_filter=lambda a, b, lbl: not untyped_edge(a, b, lbl))
+
+                        def typed(e, node):
+                            if is_item_field(e):
+                                return True
+                            if isinstance(e, ast.Compare) and len(e.ops) == 1 and is_item_field(e.left) and isinstance(e.comparators[0], ast.Constant) \
+                                    and e.comparators[0].value is None:
+                                return isinstance(e.ops[0], (ast.IsNot, ast.NotEq))
+                            if isinstance(e, ast.Call) and ast.unparse(e.func) == "isinstance" and len(e.args) == 2 and is_item_field(e.args[0]) \
+                                    and "AnyField" in ast.unparse(e.args[1]):
+                                return False
+                            return None
+                        spt = Spec(an, f, typed)
+                        p = None if r not in spt.nodes else [r]
                         if p is not None:
                             ok, why = False, "the unvalidated value itself is returned although an item field is configured"
                     elif kind == "expr" and isinstance(payload, ast.Call):
